@@ -216,6 +216,11 @@ def run(res, tier):
                     kp.fit(case['X'], n_inputs=case['nu'], episode_feature=case['ep'])
                 except ValueError:
                     continue
+                except Exception as e:  # noqa  (an internal error of the implementation on a generated pipeline: reported with the input)
+                    payload = dp.describe(case)
+                    payload['X'] = case['X'].tolist()
+                    impl_bad.append(dict(payload, kind='pipeline', exception=f'{type(e).__name__}: {e}'[:500]))
+                    continue
                 U, S = Recorder.last
                 if not (sg.is_integral(U) and sg.is_integral(S)):
                     continue
@@ -229,7 +234,11 @@ def run(res, tier):
                 dist['pipeline'] += 1
                 # direct: the regressor must have seen oracle_pairs(transform(X))
                 Xt = kp.transform(case['X'])
-                Ou, Os = oracle_pairs(Xt, kp.n_inputs_out_, case['ep'])
+                # the number of lifted inputs is the documented one (the dims of the model), not what the estimator declares
+                d_ = (case['ns'], case['nu'])
+                for spec_ in case['chain']:
+                    d_ = sg.dims_out(spec_, *d_)
+                Ou, Os = oracle_pairs(Xt, d_[1], case['ep'])
                 if Ou.shape != U.shape or Os.shape != S.shape or not (np.array_equal(Ou, U) and np.array_equal(Os, S)):
                     impl_bad.append(dict(payload, kind='pipeline', got_unshifted=U.tolist(), got_shifted=S.tolist(),
                                          want_unshifted=Ou.tolist(), want_shifted=Os.tolist()))
